@@ -31,6 +31,9 @@ flows! {
     c41_ref_tick_two_uses(a: u32) -> (out: (u32, u32));
     c41_ref_mut_then_ref(a: u32) -> (out: u32);
     c41_ref_borrower_after_consumer(a: u32) -> (first: (u32, u32), second: u32);
+    c41_filter_not_in_unbounded(a: u32) -> (out: u32);
+    c41_partition_one_side(a: u32) -> (out: u32);
+    c41_partition_both_sides(a: u32) -> (even: u32, odd: u32);
     c41_tee_two_defers(a: u32) -> (out: (u32, usize));
     c31_batch(a: u32) -> (out: Vec<u32>);
     c31_snapshot(a: u32) -> (out: (usize, usize));
